@@ -51,6 +51,8 @@ fn ulp_step(x: f64, k: i64) -> f64 {
 /// run one explicit case (used by generation and replay); `adaptive` chooses the next price from state
 pub fn run_case(out: &mut Out, id: u64, brick: f64, src_idx: usize, init: Candle, inputs: &mut Vec<Candle>, mut rng: Option<Rng>, steps: usize) {
 	let src = SOURCES[src_idx];
+	// the brick size as the value type holds it (single precision in the value_type_f32 build)
+	let brick = (brick as V) as f64;
 	out.line(&format!("C {} renko f{} {}", id, fbits(brick), src_idx));
 	let r = guard(|| Renko::new((brick as V, src), &init));
 	let mut m = match r {
